@@ -3,8 +3,8 @@ package engines
 import (
 	"fmt"
 	"math"
-	"strconv"
 	"regexp"
+	"strconv"
 	"strings"
 
 	"github.com/philhassey/goatlang"
@@ -25,7 +25,7 @@ type MItem struct {
 	OnIter int     `json:"on_iter,omitempty"` // only in the n-th iteration of the enclosing loop (0 = every)
 	Cursor int     `json:"cursor,omitempty"`
 	Miss   int     `json:"miss,omitempty"` // getmiss: the level (1..Nest) at which the outer key is missing
-	Max    int     `json:"max,omitempty"` // abandon the loop after this many iterations (0 = run to exhaustion)
+	Max    int     `json:"max,omitempty"`  // abandon the loop after this many iterations (0 = run to exhaustion)
 	Body   []MItem `json:"body,omitempty"`
 }
 
@@ -38,10 +38,10 @@ type MPlan struct {
 	Initial     []int   `json:"initial,omitempty"`
 	Items       []MItem `json:"items"`
 	OptimizeOff bool    `json:"optimize_off,omitempty"`
-	OneLine     bool    `json:"one_line,omitempty"` // script driver: the whole body on one source line (nested loops share a line)
+	OneLine     bool    `json:"one_line,omitempty"`  // script driver: the whole body on one source line (nested loops share a line)
 	NilStart    int     `json:"nil_start,omitempty"` // script driver: the map variable starts as a nil map; the first N items (reads only) run against it
-	Nest        int     `json:"nest,omitempty"`     // the map under test is a value 1 or 2 levels inside map[string]map[string]...: a["a"]["b"]; getmiss items read through a missing or nil level
-	Literal     bool    `json:"literal,omitempty"`  // the initial pairs are given to the constructor / a map literal with computed keys (repeats allowed: the last wins, as in Go)
+	Nest        int     `json:"nest,omitempty"`      // the map under test is a value 1 or 2 levels inside map[string]map[string]...: a["a"]["b"]; getmiss items read through a missing or nil level
+	Literal     bool    `json:"literal,omitempty"`   // the initial pairs are given to the constructor / a map literal with computed keys (repeats allowed: the last wins, as in Go)
 }
 
 type mapiter struct{}
